@@ -15,6 +15,7 @@
 #include "clang/AST/DeclCXX.h"
 #include "clang/AST/DeclTemplate.h"
 #include "clang/AST/ExprCXX.h"
+#include "clang/AST/ParentMap.h"
 #include "clang/AST/RecursiveASTVisitor.h"
 #include "clang/AST/StmtCXX.h"
 #include "clang/Analysis/CFG.h"
@@ -796,6 +797,41 @@ namespace
                 ++nFns;
                 return;
             }
+            ParentMap PM(const_cast<Stmt*>(Body));
+            std::map<const CXXTryStmt*, int> tryIds;
+            auto tryOf = [&](const Stmt* St) -> int {
+                // innermost try whose *try block* (not a handler) contains St; 0 = none
+                const Stmt* Child = St;
+                for (const Stmt* P = PM.getParent(St); P; Child = P, P = PM.getParent(P))
+                    if (auto* TS = dyn_cast<CXXTryStmt>(P))
+                        if (TS->getTryBlock() == Child)
+                        {
+                            auto it = tryIds.find(TS);
+                            if (it != tryIds.end())
+                                return it->second;
+                            int n      = (int)tryIds.size() + 1;
+                            tryIds[TS] = n;
+                            return n;
+                        }
+                return 0;
+            };
+            auto handlerOf = [&](const Stmt* St) -> int {
+                // innermost try one of whose handlers contains St; 0 = none
+                const Stmt* Child = St;
+                for (const Stmt* P = PM.getParent(St); P; Child = P, P = PM.getParent(P))
+                    if (auto* TS = dyn_cast<CXXTryStmt>(P))
+                        if (TS->getTryBlock() != Child)
+                        {
+                            auto it = tryIds.find(TS);
+                            if (it != tryIds.end())
+                                return it->second;
+                            int n      = (int)tryIds.size() + 1;
+                            tryIds[TS] = n;
+                            return n;
+                        }
+                return 0;
+            };
+            (void)handlerOf;
             fn["entry"] = (int64_t)G->getEntry().getBlockID();
             fn["exit"]  = (int64_t)G->getExit().getBlockID();
             json::Array blocks;
@@ -827,6 +863,21 @@ namespace
                         }
                         else
                             c["all"] = true;
+                        if (auto* TS = dyn_cast_or_null<CXXTryStmt>(PM.getParent(CS)))
+                        {
+                            auto it = tryIds.find(TS);
+                            int  n;
+                            if (it != tryIds.end())
+                                n = it->second;
+                            else
+                            {
+                                n          = (int)tryIds.size() + 1;
+                                tryIds[TS] = n;
+                            }
+                            c["try"] = n;
+                            // the try enclosing this try statement (for rethrow)
+                            c["outer_try"] = tryOf(TS);
+                        }
                         jb["label"] = std::move(c);
                     }
                     else
@@ -839,7 +890,14 @@ namespace
                     {
                         const Stmt* St = CS->getStmt();
                         if (isInteresting(St))
-                            evs.push_back(eventOf(St));
+                        {
+                            json::Value ev = eventOf(St);
+                            if (int t = tryOf(St))
+                                (*ev.getAsObject())["try"] = t;
+                            if (int h = handlerOf(St))
+                                (*ev.getAsObject())["in_handler"] = h;
+                            evs.push_back(std::move(ev));
+                        }
                     }
                     else if (auto CI = El.getAs<CFGInitializer>())
                     {
@@ -861,6 +919,9 @@ namespace
                         const VarDecl* VD = AD->getVarDecl();
                         json::Object   o{{"ev", "dtor"}, {"what", "auto"}, {"name", VD->getName().str()},
                                        {"did", idOf(VD)}, {"t", typeStr(VD->getType())}};
+                        if (const Stmt* TS2 = AD->getTriggerStmt())
+                            if (int t = tryOf(TS2))
+                                o["try"] = t;
                         if (auto* DD = AD->getDestructorDecl(Ctx))
                         {
                             o["noexcept"] = nothrowOf(DD, VD->getLocation());
